@@ -5,6 +5,8 @@ package main
 // count("f"), lastNil("f"), lastArg("f", i), and constrain with `at-call f requires <expr>` clauses.
 
 import (
+	"sort"
+	"regexp"
 	"fmt"
 	"go/ast"
 	"go/token"
@@ -392,10 +394,10 @@ func (ex *Exec) reachableEvents(fi *FuncInfo, seen map[string]bool, out map[stri
 		fn := ex.calleeOf(call)
 		ex.info = saveInfo
 		if fn != nil {
-			saveT := ex.traceEvents
-			ex.traceEvents = true
+			saveT, saveCM := ex.traceEvents, ex.contractMode
+			ex.traceEvents, ex.contractMode = true, 0 // a syntactic scan of code, not the evaluation of a specification
 			name, isEv := ex.eventName(fn, call)
-			ex.traceEvents = saveT
+			ex.traceEvents, ex.contractMode = saveT, saveCM
 			if isEv {
 				out[name] = true
 			}
@@ -463,6 +465,75 @@ func (ex *Exec) havocEventsOf(p *Path, fi *FuncInfo) {
 				p.heap[k] = ex.c.Fresh("H:"+k, sortOf)
 			} else {
 				delete(p.heap, k)
+			}
+		}
+	}
+}
+
+var ghostRefRe = regexp.MustCompile(`\b(?:count|at|lastNil|lastErrNil|lastErr|lastArg\w*|lastRet\w*)\("([^"]+)"`)
+
+// contractEventNames: the event names a contract's postconditions and at-call clauses mention.
+func contractEventNames(c *Contract) []string {
+	seen := map[string]bool{}
+	var out []string
+	add := func(t string) {
+		for _, m := range ghostRefRe.FindAllStringSubmatch(t, -1) {
+			if !seen[m[1]] {
+				seen[m[1]] = true
+				out = append(out, m[1])
+			}
+		}
+	}
+	for _, e := range c.Ensures {
+		add(e.Text)
+	}
+	for _, ac := range c.AtCall {
+		if !seen[ac.Callee] {
+			seen[ac.Callee] = true
+			out = append(out, ac.Callee)
+		}
+		add(ac.Clause.Text)
+	}
+	sort.Strings(out)
+	return out
+}
+
+// havocNamedEvents forgets the ghost cells of the named events (counters and sequence numbers only grow).
+func (ex *Exec) havocNamedEvents(p *Path, names []string) {
+	if len(names) == 0 {
+		return
+	}
+	evs := map[string]bool{"*": true}
+	for _, n := range names {
+		evs[n] = true
+	}
+	for name := range evs {
+		for kind, sortName := range stableGhostKinds {
+			if (kind == "seq") != (name == "*") {
+				continue
+			}
+			key := ghostKey(kind, name)
+			var before string
+			if kind == "seq" || kind == "cnt" {
+				before = ex.ghostRead(p, kind, name, sortName)
+			}
+			p.heap[key] = ex.c.Fresh("H:"+key, "(Array Ref "+sortName+")")
+			if before != "" {
+				p.Assume("(>= (select " + p.heap[key] + " null) " + before + ")")
+			}
+		}
+	}
+	for k := range p.heap {
+		if !strings.HasPrefix(k, "ghost:") {
+			continue
+		}
+		parts := strings.SplitN(k, ":", 3)
+		if len(parts) == 3 && evs[parts[2]] {
+			if _, stable := stableGhostKinds[parts[1]]; stable {
+				continue
+			}
+			if sortOf := ex.sortOfHeapTerm(p.heap[k]); sortOf != "" {
+				p.heap[k] = ex.c.Fresh("H:"+k, sortOf)
 			}
 		}
 	}
